@@ -57,6 +57,14 @@ def gen(tier, seed, shard, nshards):
                 for I in sorted(set(int(x) for x in rng.integers(0, 1 << p, 6))):
                     yield "embedded-dagI", {"p": p, "code3": code, "I": I, "P": 9 + code % 5}
             idx += 1
+
+    sidx = 0
+    for pp in (6, 7, 8, 9, 10):
+        for name in sorted(gmat.named_shapes(pp)):
+            for rep in range(2):
+                if sidx % nshards == shard:
+                    yield "shape-dagI", {"p": pp, "shape": name, "rep": rep}
+                sidx += 1
     # pdag_to_icpdag
     idx = 0
     for p in (1, 2, 3, 4):
@@ -116,6 +124,19 @@ def _judge_dag(U, out, A, Imask, family, case, rec, key, chain_variants=(True,))
         rec.count("imec:proper-subclass")
     ctx = {"dag": _gc.rows(out), "targets": sorted(I)}
     Iarg = set(I) if (Imask + p) % 5 else frozenset(I)
+    if chain_variants == (True,) and (sum(out) + Imask) % 6 == 2:
+        chain_variants = (True, False)
+        rec.count("keyword:check_chain=False")
+    if (sum(out) + Imask) % 16 == 7:
+        import io, contextlib
+        try:
+            with contextlib.redirect_stdout(io.StringIO()):
+                rd = U.dag_to_icpdag(np.array(A, copy=True), set(I), debug=True)
+            rec.count("keyword:debug=True")
+            if gmat.masks(rd) != G.union_graph(members, p):
+                rec.violation("C10:dag_to_icpdag-debug-changes-result", family, case, "dag_to_icpdag(A, I, debug=True) differs from the I-essential graph", **ctx)
+        except Exception as e:
+            rec.exception_violation("C10:dag_to_icpdag-debug-exception", family, case, "dag_to_icpdag(debug=True) raised", e)
     for cc in chain_variants:
         try:
             res = U.imec(A, Iarg) if cc is True else U.imec(A, Iarg, check_chain=False)
@@ -171,6 +192,16 @@ def judge(family, case, rec):
         Ibig = sum(1 << labels[t] for t in G.bits(case["I"]))
         rec.count("embedded:graphs")
         _judge_dag(U, out, gmat.to_np(out), Ibig, family, case, rec, ("e", case["p"], case["code3"], case["I"]))
+    elif family == "shape-dagI":
+        out0 = gmat.named_shapes(case["p"])[case["shape"]]
+        if G.n_edges(out0) > 11:
+            return
+        out = gmat.relabel(out0, util.rng_for("shape", case["p"], case["shape"], case["rep"])) if case["rep"] else list(out0)
+        rec.count("shapes:" + case["shape"])
+        rngI = util.rng_for("C10shape", case["p"], case["shape"], case["rep"])
+        for I in sorted(set(int(x) for x in rngI.integers(0, 1 << len(out), 4))):
+            _judge_dag(U, out, gmat.to_np(out), I, family, dict(case, I=I), rec, ("shape", case["p"], case["shape"], case["rep"], I),
+                       chain_variants=(True, False))
     elif family == "sampled-dagI":
         out = list(case["masks"])
         _judge_dag(U, out, gmat.hostile_array(gmat.to_np(out), sum(out) + case["I"]), case["I"], family, case, rec, None)
